@@ -425,7 +425,7 @@ class Sim:
         for gid, q in self.pending.items():
             for r, dq in q.items():
                 for op in dq:
-                    self.violation('unmatched-operation', rank=r, kind=op.kind,
+                    self.violation('unmatched-operation', rank=r, op=op.kind,
                                    group=list(self.groups[gid].ranks), **_jd(op.desc))
         for r in range(self.world):
             n = len(self.newgroup_calls[r])
